@@ -475,8 +475,7 @@ reg("C01",
     # quick tier: the cheaper half; thorough tier: all of them.
     *_pick("C02", ["c02_raw_small", "c02_plaintext_wiring", "c02_plaintext_heartbeat_3"], c01=True),
     *_pick("C02", ["c02_encrypted_small", "c02_header", "c02_raw_cap"], c01=True, tier="thorough"),
-    *_pick("C03", ["c03_two_appdata", "c03_two_heartbeat", "c03_two_unknown_ff"], c01=True),
-    *_pick("C03", ["c03_two_ccs", "c03_two_alert", "c03_handshake_list_wiring"], c01=True, tier="thorough"),
+    *_pick("C03", ["c03_two_appdata", "c03_two_heartbeat", "c03_two_unknown_ff", "c03_two_ccs", "c03_two_alert", "c03_handshake_list_wiring"], c01=True, tier="thorough"),
     *_pick("C04", ["c04_dispatch_wiring", "c04_new_session_ticket", "c04_hello_retry_request", "c04_certificate", "c04_certificate_status", "c04_next_protocol",
                    "c04_key_update_and_hello_request", "c04_server_key_exchange", "c04_finished", "c04_server_hello_tls12_42", "c04_server_hello_draft18_40"], c01=True),
     *_pick("C04", ["c04_client_hello_41", "c04_certificate_request_6", "c04_server_done", "c04_certificate_verify", "c04_client_key_exchange",
@@ -491,10 +490,8 @@ reg("C01",
     *_pick("C10", ["c10_record_wiring_small", "c10_hs_clientkeyexchange", "c10_body_server_hello_42", "c10_record_ccs", "c10_record_alert"], c01=True, tier="thorough"),
     *_pick("C13", ["c13_dh_params", "c13_ec_parameters", "c13_ecdh_params", "c13_digitally_signed"], c01=True),
     *_pick("C13", ["c13_ecpoint", "c13_digitally_signed_old", "c13_content_and_signature_dh"], c01=True, tier="thorough"),
-    *_pick("C14", ["c14_sct_list_wiring"], c01=True),
-    *_pick("C14", ["c14_sct_single", "c14_sct_list_one_shape"], c01=True, tier="thorough"),
-    *_pick("C16", ["c16_lemma_many1_complete"], c01=True),
-    *_pick("C16", ["c16_tls_parser_is_parse_tls_plaintext"], c01=True, tier="thorough"),
+    *_pick("C14", ["c14_sct_list_wiring", "c14_sct_single", "c14_sct_list_one_shape"], c01=True, tier="thorough"),
+    *_pick("C16", ["c16_lemma_many1_complete", "c16_tls_parser_is_parse_tls_plaintext"], c01=True, tier="thorough"),
     )
 
 # ------------------------------------------------------------------------------------------------ C18
